@@ -164,7 +164,7 @@ def _gen_cases(tier, seed):
     nr = 2000 if tier == "quick" else 6000
     # atoms=1: a shape numpy would broadcast; overflow: a coordinate beyond a text format's field width (refused by the
     # writers that check it — then the refusal must leave no partial frame behind; formats that can hold the value skip)
-    bads = ["atoms+1", "atoms-1", "atoms=1", "cell-toggle", "time-toggle", "overflow"]
+    bads = ["atoms+1", "atoms-1", "atoms=1", "cell-toggle", "time-toggle", "overflow", "overflow-huge"]
     for j in range(nr):
         rng = common.rng_for("C19r", seed, j)
         fmt = STREAM[j % len(STREAM)]
@@ -645,9 +645,10 @@ def _ragged(case, ctx, d):
         bt = files.ident_traj(1, NA - 1, cell="ortho", f0=n)
     elif bad == "atoms=1":
         bt = files.ident_traj(1, 1, cell="ortho", f0=n)
-    elif bad == "overflow":
+    elif bad in ("overflow", "overflow-huge"):
         x = np.array(bt.xyz, copy=True)
-        x[0, NA // 2, 1] = 3.0e4  # nm = 3e5 angstrom: beyond F8.3 in either unit
+        # 3e4 nm = 3e5 angstrom: beyond F8.3 in either unit; 2e7 nm = 2e8 angstrom: beyond even a width-8 field without decimals
+        x[0, NA // 2, 1] = 3.0e4 if bad == "overflow" else 2.0e7
         bt = bt[:]
         bt.xyz = x
     elif bad == "cell-toggle":
@@ -732,8 +733,8 @@ def _ragged(case, ctx, d):
         consistent = got.n_frames == n + 1
     except Exception as e:
         got, consistent = None, False
-    if bad == "overflow":
-        ctx.skip("ragged.refused", f"{fmt}: a coordinate of 3e4 nm is accepted (fidelity of what was stored is C01's subject)")
+    if bad.startswith("overflow"):
+        ctx.skip("ragged.refused", f"{fmt}: a coordinate of 3e4 / 2e7 nm is accepted (fidelity of what was stored is C01's subject)")
     elif bad.startswith("atoms"):
         ctx.violation("ragged.refused", f"{fmt}:{bad}:atom-count-change-accepted",
                       f"{fmt}: a write with {bt.n_atoms} atoms into a file of {NA}-atom frames was accepted "
